@@ -434,7 +434,6 @@ Expire(k) ==
     /\ Janitor
     /\ entries[k].present
     /\ ~entries[k].exp
-    /\ lock[ShardOf[k]] = Free
     /\ entries' = [entries EXCEPT ![k].exp = TRUE]
     /\ UNCHANGED <<path, objs, bytes, count, dead, lock, pc, op, pend, handles, clock, nextVer, jan, limit, lastEv>>
 
